@@ -28,7 +28,7 @@ XHTML = "http://www.w3.org/1999/xhtml"
 
 
 def _fn(ctx, name):
-    its = [it for it in ctx.ast.crates["html5ever"] if it["k"] == "Fn" and it["mod"].endswith("serialize") and it["name"] == name and it.get("body") is not None]
+    its = [it for it in ctx.ast.walkable("html5ever") if it["k"] == "Fn" and it["mod"].endswith("serialize") and it["name"] == name and it.get("body") is not None]
     if len(its) != 1:
         raise AnchorMissing("html5ever::serialize::%s matches %d" % (name, len(its)))
     return its[0]
